@@ -253,6 +253,18 @@ fn serve(listener: TcpListener, reply: Reply, port: u16, done: mpsc::Receiver<()
                         let ad = ad.clone();
                         let _ = with_watchdog(move || call_adapter(&ad, inner));
                     }
+                    if seen.len() == 1 && reply.flags.iter().any(|f| f == "failfirst") {
+                        // the FIRST exchange is cut short under Content-Length after part of the body; later ones are served in full
+                        let mut cut = reply.clone();
+                        cut.fault = "truncated".into();
+                        cut.framing = "cl".into();
+                        if cut.body.len() < 8 {
+                            cut.body = b"{\"error\":\"authorization_pending\"}".to_vec();
+                        }
+                        write_reply(&mut s, &cut, port);
+                        let _ = s.shutdown(std::net::Shutdown::Both);
+                        continue;
+                    }
                     write_reply(&mut s, &reply, port);
                 }
                 let _ = s.shutdown(std::net::Shutdown::Both);
@@ -568,10 +580,10 @@ fn run_same(ws: &[&str]) -> String {
     let reply = Reply {
         status,
         ct: ct.clone(),
-        framing: if pad % 2 == 0 || fault.is_some() { "cl".into() } else { "chunked".into() },
+        framing: if fault.is_some() { "cl".into() } else { ["cl", "chunked", "close", "close10"][pad % 4].into() },
         body: body.clone(),
         fault: fault.clone().unwrap_or_else(|| "none".into()),
-        flags: flags.iter().filter(|f| *f == "obs" || *f == "reason").cloned().collect(),
+        flags: flags.iter().filter(|f| *f == "obs" || *f == "reason" || *f == "failfirst").cloned().collect(),
         nested: None,
     };
     let listener = TcpListener::bind("127.0.0.1:0").unwrap();
@@ -618,8 +630,11 @@ fn run_same(ws: &[&str]) -> String {
             }
             call_adapter(&adapter, r).map_err(AdErr)
         };
+        let failfirst = flags.iter().any(|f| f == "failfirst");
+        let mem_calls = std::sync::atomic::AtomicU32::new(0);
         let in_memory = |_r: HttpRequest| -> Result<HttpResponse, AdErr> {
-            if fault.is_some() {
+            let nth = mem_calls.fetch_add(1, std::sync::atomic::Ordering::SeqCst);
+            if fault.is_some() || (failfirst && nth == 0) {
                 return Err(AdErr("connection fault".into()));
             }
             let mut b = http::Response::builder().status(status);
